@@ -20,6 +20,7 @@ import Proofs.ImplV1Roundtrip
 import Proofs.ZlibCompressLoop
 import Proofs.ZlibCompressChunks
 import Proofs.PayloadNonempty
+import Proofs.BlobLevel
 
 namespace EngineModel.Properties.C03
 open EngineModel EngineModel.Codec EngineModel.V2 EngineModel.Impl.V2
@@ -468,6 +469,21 @@ theorem C03_compress_remaining_counter_counterexample (fuel : Nat) :
       (∀ d ∈ log, d.flush = .noFlush) ∧ (log.map (·.consumed)).sum = chunk ∧
       ∀ d ∈ log, d.ret ≠ .streamEnd :=
   compress_remaining_counter_counterexample fuel
+
+/-- **`zlib_uncompress (zlib_compress p) = p`** for the models of the two loop pairs: for every deflate
+oracle honouring `DContract` and every payload of 1 byte … 2 GiB, the compress loops return a blob, and if
+the independent Lean inflate inverts the bytes that oracle produced for `p` (the joint contract between the
+two directions of zlib; for libz it is sampled on every run — every blob the library writes is inflated by
+the Lean inflate in the C02 tie), the Model of `zlib_uncompress` returns `p` from that blob.  By
+`C05_uncompress_replay_eq_unz` the same holds for the loop model driven by the Lean inflate. -/
+theorem C03_uncompress_compress {σ : Type} (o : DOracle σ) (c : DContract o) (s0 : σ) (hs0 : c.live s0)
+    (p : Bytes) (hne : p ≠ []) (hlt : p.length < 2147483648) (fuel : Nat)
+    (hf : cFuelBound c s0 p.length ≤ fuel) :
+    ∃ blob log, compress o s0 fuel p = .ok (blob, log) ∧
+      ((∃ rest, EngineModel.Zlib.inflate (log.flatMap (·.out)) = some (p, rest)) → unz blob = .ok p) :=
+  uncompress_compress o c s0 hs0 p hne hlt fuel hf
+
+example : ([7] : Bytes) ≠ [] ∧ ([7] : Bytes).length < 2147483648 := by decide
 
 end Compress
 
